@@ -846,6 +846,61 @@ Proof.
 Qed.
 
 (* ------------------------------------------------------------------------------------------ *)
+(* the machine's complete run and the key-flow events of the hygiene theorem                     *)
+(* ------------------------------------------------------------------------------------------ *)
+Lemma flat_map_by_index {A B} (f : A -> list B) (g : nat -> list B) (r : list A) : forall a,
+  (forall c, c < length r -> exists s, nth_error r c = Some s /\ f s = g (a + c)) ->
+  flat_map f r = flat_map g (seq a (length r)).
+Proof.
+  induction r as [|x r IH]; intros a H; cbn [flat_map length seq]; [reflexivity|].
+  destruct (H 0 (Nat.lt_0_succ _)) as (s & Hs & Hf). cbn in Hs. injection Hs as <-.
+  rewrite Nat.add_0_r in Hf. rewrite Hf. f_equal. apply IH. intros c Hc.
+  destruct (H (S c)) as (s & Hs & Hf'); [cbn; lia|]. cbn in Hs. exists s. split; [exact Hs|].
+  rewrite Hf'. f_equal. lia.
+Qed.
+
+Lemma W_batched_program (w : world) v root nch jit a r :
+  W_run_batched w v root nch jit a = Some r -> exists prog, program (w_p w) (w_sched w) = Some prog.
+Proof.
+  unfold W_run_batched, run_batched.
+  destruct (set_initial_values _ v nch a) as [states|]; [|discriminate].
+  destruct (negb (length states =? nch)); [discriminate|].
+  destruct (program (w_p w) (w_sched w)) as [prog|]; [|discriminate]. intros _. now exists prog.
+Qed.
+
+Theorem W_run_hygiene (w : world) v root nch jit a r :
+  W_run_batched w v root nch jit a = Some r ->
+  exists evs, run_events root nch jit (w_p w) (w_sched w) = Some evs
+              /\ evs = builder_events root nch jit ++ flat_map (W_trace w) r
+              /\ NoDup (map snd (uses evs))
+              /\ (forall l k n, In (EUse l k) evs -> ~ In (ESplit k n) evs).
+Proof.
+  intros H. destruct (W_batched_program _ _ _ _ _ _ _ H) as [prog EP].
+  destruct (W_batched_chain _ _ _ _ _ _ _ H) as [L B].
+  assert (ET : flat_map (W_trace w) r
+               = flat_map (fun c => chain_events (w_p w) c prog (chain_key root nch c)) (seq 0 nch)).
+  { rewrite <- L. apply flat_map_by_index. intros c Hc. rewrite L in Hc.
+    destruct (B c Hc) as (i0 & s & _ & En & E1). exists s. split; [exact En|].
+    destruct (W_trace_is_key_flow _ _ _ _ _ _ _ E1) as (prog' & EP' & T).
+    rewrite EP in EP'. injection EP' as <-. rewrite L. exact T. }
+  assert (ER : run_events root nch jit (w_p w) (w_sched w)
+               = Some (builder_events root nch jit ++ flat_map (W_trace w) r)).
+  { unfold run_events. rewrite EP, ET. reflexivity. }
+  eexists. split; [exact ER|]. split; [reflexivity|].
+  destruct (key_hygiene _ _ _ _ _ _ ER) as (N & S & _). split; assumption.
+Qed.
+
+Theorem int_seed_equiv_full (prngkey : Z -> key) z :
+  seed_root prngkey (IntSeed z) = seed_root prngkey (KeySeed (prngkey z))
+  /\ (forall nch jit p sched,
+        run_events (seed_root prngkey (IntSeed z)) nch jit p sched
+        = run_events (seed_root prngkey (KeySeed (prngkey z))) nch jit p sched)
+  /\ (forall (w : world) v nch jit a,
+        W_run_batched w v (seed_root prngkey (IntSeed z)) nch jit a
+        = W_run_batched w v (seed_root prngkey (KeySeed (prngkey z))) nch jit a).
+Proof. repeat split. Qed.
+
+(* ------------------------------------------------------------------------------------------ *)
 (* a concrete non-trivial world (for the Examples: the hypotheses of the theorems are satisfiable) *)
 (* ------------------------------------------------------------------------------------------ *)
 Definition khash (k : key) : Z := Z.of_N (encode k) mod 1009.
